@@ -201,7 +201,7 @@ def r2_retarget_guard(ctx):
                 if n.orelse and always_raises(n.orelse):
                     raise_conds.append(f"not({sym.canon(n.test, env)})")
         ok = any(t in (f"not(({s_name}.raw().max())<(len({t_name}.get_alphabet())))", f"(len({t_name}.get_alphabet()))<=({s_name}.raw().max())") for t in raise_conds)
-        ctx.ob(f.where, "codes beyond the target alphabet raise before re-wrapping", ok, "; ".join(raise_conds) or "no raising test found")
+        ctx.ob(f.where, "codes beyond the target alphabet raise before re-wrapping", ok, "; ".join(raise_conds) or "no raising test found", definite=True)
         for r in [n for n in walk_local(g) if isinstance(n, ast.Return)]:
             c = sym.canon(r.value, env)
             ok = c in (f"{s_name}.__class__({s_name}.raw(), {t_name})",
